@@ -99,6 +99,25 @@ def _format_to_fstring(fmt, args):
 class _N(ast.NodeTransformer):
     def visit_Call(self, n):
         self.generic_visit(n)
+        # range(0, n) / range(0, n, 1) -> range(n)
+        if isinstance(n.func, ast.Name) and n.func.id == "range" and not n.keywords and len(n.args) in (2, 3) and isinstance(n.args[0], ast.Constant) and n.args[0].value == 0 \
+                and type(n.args[0].value) is int and (len(n.args) == 2 or (isinstance(n.args[2], ast.Constant) and n.args[2].value == 1)):
+            n.args = [n.args[1]]
+        # dict([(k, v) for ...]) / dict((k, v) for ...)  ->  {k: v for ...}
+        if isinstance(n.func, ast.Name) and n.func.id == "dict" and len(n.args) == 1 and not n.keywords and isinstance(n.args[0], (ast.ListComp, ast.GeneratorExp)) \
+                and isinstance(n.args[0].elt, ast.Tuple) and len(n.args[0].elt.elts) == 2:
+            c = n.args[0]
+            return ast.copy_location(ast.DictComp(key=c.elt.elts[0], value=c.elt.elts[1], generators=c.generators), n)
+        # any(f(x) for x in (a, b)) -> f(a) or f(b) ;  all(...) -> and     (literal display of at most 8 elements)
+        if isinstance(n.func, ast.Name) and n.func.id in ("any", "all") and len(n.args) == 1 and not n.keywords and isinstance(n.args[0], (ast.GeneratorExp, ast.ListComp)) \
+                and len(n.args[0].generators) == 1 and not n.args[0].generators[0].ifs and isinstance(n.args[0].generators[0].iter, (ast.Tuple, ast.List)) \
+                and 1 <= len(n.args[0].generators[0].iter.elts) <= 8 and isinstance(n.args[0].generators[0].target, ast.Name) \
+                and not any(isinstance(e, ast.Starred) for e in n.args[0].generators[0].iter.elts):
+            g = n.args[0].generators[0]
+            vals = [_subst_name(n.args[0].elt, g.target.id, e) for e in g.iter.elts]
+            if len(vals) == 1:
+                return ast.copy_location(vals[0], n)
+            return ast.copy_location(ast.BoolOp(op=ast.Or() if n.func.id == "any" else ast.And(), values=vals), n)
         f = n.func
         # operators spelled as the ufunc / tensor function they dispatch to
         d_ = _dotted(f)
@@ -161,6 +180,15 @@ class _N(ast.NodeTransformer):
 
     def visit_BinOp(self, n):
         self.generic_visit(n)
+        # x + 0, 0 + x, x - 0 (integer literal zero: a parameterised helper called with offset 0)  ->  x
+        def _zero(e):
+            return isinstance(e, ast.Constant) and type(e.value) is int and e.value == 0
+        if isinstance(n.op, ast.Add) and _zero(n.right) and not isinstance(n.left, (ast.List, ast.Tuple, ast.Constant, ast.JoinedStr)):
+            return n.left
+        if isinstance(n.op, ast.Add) and _zero(n.left) and not isinstance(n.right, (ast.List, ast.Tuple, ast.Constant, ast.JoinedStr)):
+            return n.right
+        if isinstance(n.op, ast.Sub) and _zero(n.right) and not isinstance(n.left, ast.Constant):
+            return n.left
         # {..} | {..}  ->  {**{..}, **{..}}   (dict union; at least one operand is a dict display / comprehension, so both are mappings)
         if isinstance(n.op, ast.BitOr) and (isinstance(n.left, (ast.Dict, ast.DictComp)) or isinstance(n.right, (ast.Dict, ast.DictComp))):
             keys, vals = [], []
@@ -357,6 +385,15 @@ class _N(ast.NodeTransformer):
                 r = self.visit_For(part)
                 out.extend(r if isinstance(r, list) else [r])
             return out
+        # for T in A + B (list expressions): BODY   ->   for T in A: BODY ; for T in B: BODY
+        if isinstance(it, ast.BinOp) and isinstance(it.op, ast.Add) and _is_list_expr(it) and not n.orelse and not _has_own_break(n.body):
+            out = []
+            for a in (it.left, it.right):
+                part = ast.copy_location(ast.For(target=copy.deepcopy(n.target), iter=a, body=copy.deepcopy(n.body), orelse=[], type_comment=None), n)
+                r = self.visit_For(part)
+                out.extend(r if isinstance(r, list) else [r])
+            return out
+        # for T in [a, b]: BODY with a literal display of tuples and a tuple target is left alone (first-match / unrolling is a statement-level normal form)
         # for (j, m) in enumerate([E(v) for v in IT]): BODY(m)   ->   for (j, v) in enumerate(IT): BODY(E(v))      (also without enumerate; generator or list)
         wrap = None
         src = it
@@ -396,6 +433,14 @@ class _N(ast.NodeTransformer):
                 new = ast.copy_location(ast.For(target=tgt, iter=itr, body=body, orelse=n.orelse, type_comment=None), n)
                 ast.fix_missing_locations(new)
                 return new
+        return n
+
+    def visit_Try(self, n):
+        self.generic_visit(n)
+        # try: (try: B except H) finally: F   ->   try: B except H finally: F      (one statement: the inner handlers run before the outer finally either way)
+        if n.finalbody and not n.handlers and not n.orelse and len(n.body) == 1 and isinstance(n.body[0], ast.Try) and not n.body[0].finalbody:
+            inner = n.body[0]
+            return ast.copy_location(ast.Try(body=inner.body, handlers=inner.handlers, orelse=inner.orelse, finalbody=n.finalbody), n)
         return n
 
     def visit_With(self, n):
@@ -799,6 +844,25 @@ def normalize_loops(fn):
                 stmts = fl
                 changed = True
                 continue
+            # x = [a, b]; x.append(c)   ->   x = [a, b, c]
+            if isinstance(s0, ast.Assign) and len(s0.targets) == 1 and isinstance(s0.targets[0], ast.Name) and isinstance(s0.value, ast.List) \
+                    and isinstance(s1, ast.Expr) and isinstance(s1.value, ast.Call) and isinstance(s1.value.func, ast.Attribute) and s1.value.func.attr == "append" \
+                    and isinstance(s1.value.func.value, ast.Name) and s1.value.func.value.id == s0.targets[0].id and len(s1.value.args) == 1 and not s1.value.keywords \
+                    and not any(isinstance(n, ast.Name) and n.id == s0.targets[0].id for n in ast.walk(s1.value.args[0])):
+                out.append(ast.copy_location(ast.Assign(targets=[s0.targets[0]], value=ast.copy_location(ast.List(elts=list(s0.value.elts) + [s1.value.args[0]], ctx=ast.Load()), s0.value)), s0))
+                stmts = stmts[:k] + [out.pop()] + stmts[k + 2:]
+                changed = True
+                continue
+            # x = <list expr>; for T in IT: [if c:] x.append(E)   ->   x = <list expr> + [E for T in IT if c]
+            if isinstance(s0, ast.Assign) and len(s0.targets) == 1 and isinstance(s0.targets[0], ast.Name) and _is_list_expr(s0.value) and not (isinstance(s0.value, ast.List) and not s0.value.elts) \
+                    and isinstance(s1, ast.For):
+                fake0 = ast.copy_location(ast.Assign(targets=[s0.targets[0]], value=ast.List(elts=[], ctx=ast.Load())), s0)
+                comp = _loop_as_comprehension(fake0, s1, fn)
+                if comp is not None and not any(isinstance(n, ast.Name) and n.id == s0.targets[0].id for n in ast.walk(s0.value)):
+                    merged = ast.copy_location(ast.Assign(targets=[s0.targets[0]], value=ast.copy_location(ast.BinOp(left=s0.value, op=ast.Add(), right=comp.value), s0.value)), s0)
+                    stmts = stmts[:k] + [merged] + stmts[k + 2:]
+                    changed = True
+                    continue
             # x = []; x.extend(IT)   ->   x = list(IT)
             if isinstance(s0, ast.Assign) and len(s0.targets) == 1 and isinstance(s0.targets[0], ast.Name) and isinstance(s0.value, ast.List) and not s0.value.elts \
                     and isinstance(s1, ast.Expr) and isinstance(s1.value, ast.Call) and isinstance(s1.value.func, ast.Attribute) and s1.value.func.attr == "extend" \
@@ -827,6 +891,18 @@ def normalize_loops(fn):
                 changed = True
                 k += 2
                 continue
+            # ... also when statements that do not mention x stand between the initialisation and the loop
+            if isinstance(s0, ast.Assign) and len(s0.targets) == 1 and isinstance(s0.targets[0], ast.Name) and isinstance(s0.value, ast.List) and not s0.value.elts:
+                xn = s0.targets[0].id
+                j = k + 1
+                while j < len(stmts) and not any(isinstance(n, ast.Name) and n.id == xn for n in ast.walk(stmts[j])):
+                    j += 1
+                if k + 1 < j < len(stmts):
+                    comp = _loop_as_comprehension(s0, stmts[j], fn)
+                    if comp is not None:
+                        stmts = stmts[:k] + stmts[k + 1:j] + [comp] + stmts[j + 1:]
+                        changed = True
+                        continue
             out.append(s0)
             k += 1
         for s_ in out:
@@ -1039,6 +1115,14 @@ def _flag_to_else(stmts, k, fn):
     return stmts[:k] + stmts[k + 1:j + 1] + stmts[j + 2:]
 
 
+def _is_list_expr(v):
+    if isinstance(v, (ast.List, ast.ListComp)):
+        return True
+    if isinstance(v, ast.BinOp) and isinstance(v.op, ast.Add):
+        return _is_list_expr(v.left) and _is_list_expr(v.right)
+    return False
+
+
 def _only_rebound_elsewhere(fn, loop, names):
     """every occurrence of ``names`` outside ``loop`` lies in another for-loop / comprehension that binds the name itself (so it never observes the value
     this loop left behind)"""
@@ -1102,6 +1186,11 @@ def _loop_as_comprehension(s0, s1, fn):
 
 def normalize(tree):
     new = _N().visit(tree)
+    if isinstance(new, list):
+        # a statement that became several (a loop over A + B split in two): callers flatten
+        for x in new:
+            ast.fix_missing_locations(x)
+        return new
     if isinstance(new, ast.Module):
         new.body = _flatten(_hoist_walrus(new.body))
     elif isinstance(new, (ast.FunctionDef, ast.AsyncFunctionDef)):
